@@ -17,8 +17,8 @@ the sends on reply channels, `(instance, share)`.
 done ⇒ dropped, otherwise delivered.  (With the context done AND a receiver
 still waiting Go may choose either; `recoverSign` – the only receiver – has
 returned by the time `handleQuery`'s deferred `cancel()` runs, which is the
-order `cancel` stands for.  The window between `recoverSign` returning and that
-cancel, in which the loop waits, is described in design/C13.md.)
+order `cancel` stands for.  Whether the loop gets THROUGH a send is the blocking
+semantics `stepB` / `runB` below.)
 
 Membership is the `ok` idiom (`req, ok := reqSign[id]`) since /repo 1c42e72; on
 the pinned commit the test was `reqSign[id].requestID == id`, which for the
@@ -102,6 +102,79 @@ def arrivalsFor (r : Rid) : List Ev → List Share
   | .arrive s :: es => if s.rid = r then s :: arrivalsFor r es else arrivalsFor r es
   | _ :: es => arrivalsFor r es
 
+/-! ### blocking (Review A #3, finding F20 – fixed in /repo 3a1c0bc)
+
+`step` says what is SENT; whether the loop goroutine gets through the send is a property of the
+receiver.  `select { case <-req.ctx.Done(): case req.reply <- s: }` has no ready alternative when the
+request is registered, its context is live and nobody receives on the reply channel any more:
+the loop waits there – for every request of the node – until the context ends (`handleQuery`
+cancels it after `reportQueryResult`'s chain call: up to the transaction timeout).
+
+`finish h` = the recovery stage of instance `h` returned (its single report is out).
+`drain = true` is the code since 3a1c0bc – `defer drainSigns(ctx, signc)`: the returned stage keeps
+taking (and dropping) what the loop sends until the context ends; `drain = false` the code before. -/
+
+inductive EvB where
+  | ev (e : Ev)
+  /-- the recovery stage of instance `h` has returned while its query context is still live -/
+  | finish (h : Nat)
+  deriving DecidableEq, Repr
+
+structure StB where
+  st : St
+  fin : Nat → Bool
+
+def initB : StB := { st := init, fin := fun _ => false }
+
+/-- a send to instance `h` would never complete: registered (the caller checks), stage gone without a
+drain, context not done -/
+def stuck (drain : Bool) (sb : StB) (h : Nat) : Bool := !drain && sb.fin h && !sb.st.done h
+
+inductive OutB where
+  | ok (sb : StB) (out : List (Nat × Share))
+  /-- the loop goroutine waits in the send of `s` to instance `h`; nothing else is consumed -/
+  | blocked (h : Nat) (s : Share)
+
+def OutB.blockedAt : OutB → Option (Nat × Share)
+  | .ok _ _ => none
+  | .blocked h s => some (h, s)
+
+def OutB.sends : OutB → List (Nat × Share)
+  | .ok _ o => o
+  | .blocked _ _ => []
+
+def stepB (drain : Bool) (sb : StB) : EvB → OutB
+  | .finish h => .ok { sb with fin := fun x => if x = h then true else sb.fin x } []
+  | .ev (.arrive s) =>
+    match sb.st.reg s.rid with
+    | some h =>
+      if stuck drain sb h then .blocked h s
+      else .ok { sb with st := (step sb.st (.arrive s)).1 } (step sb.st (.arrive s)).2
+    | none => .ok { sb with st := (step sb.st (.arrive s)).1 } (step sb.st (.arrive s)).2
+  | .ev (.register h r) =>
+    match sb.st.buf r with
+    | s :: _ =>
+      if stuck drain sb h then .blocked h s
+      else .ok { sb with st := (step sb.st (.register h r)).1 } (step sb.st (.register h r)).2
+    | [] => .ok { sb with st := (step sb.st (.register h r)).1 } (step sb.st (.register h r)).2
+  | .ev e => .ok { sb with st := (step sb.st e).1 } (step sb.st e).2
+
+def runB (drain : Bool) (sb : StB) : List EvB → OutB
+  | [] => .ok sb []
+  | e :: es =>
+    match stepB drain sb e with
+    | .blocked h s => .blocked h s
+    | .ok sb1 o1 =>
+      match runB drain sb1 es with
+      | .blocked h s => .blocked h s
+      | .ok sb2 o2 => .ok sb2 (o1 ++ o2)
+
+/-- the loop's own events of a schedule (the `finish` marks removed) -/
+def toEvs : List EvB → List Ev
+  | [] => []
+  | .ev e :: es => e :: toEvs es
+  | .finish _ :: es => toEvs es
+
 /-! ### line protocol (driver) -/
 
 def parseEv (rids : List Rid) (pos : Nat) (t : String) : Option Ev :=
@@ -119,12 +192,6 @@ def parseEv (rids : List Rid) (pos : Nat) (t : String) : Option Ev :=
       pure (.register h r)
     | _ => none
   | 'c' :: rest => do
-    let h ← (String.ofList rest).toNat?
-    pure (.cancel h)
-  -- `f<h>`: the stage of `h` has returned, `handleQuery`'s cancel is still to come.  A share arriving in
-  -- that window makes the loop wait for the cancel and is then dropped: for the deliveries the same as a
-  -- cancellation at this point (the harness produces the real window and reports how often it was hit).
-  | 'f' :: rest => do
     let h ← (String.ofList rest).toNat?
     pure (.cancel h)
   | ['x'] => some .other
@@ -156,8 +223,46 @@ def showRun (es : List Ev) : String :=
     let ts := (deliveries es h).map (fun s => toString s.tag)
     s!"h{h}=" ++ (if ts.isEmpty then "-" else String.intercalate "," ts)))
 
+/-- `stage` case lines: the receiver of every instance is the REAL `recoverSign` with a 1-of-1 group,
+every arrival carries a valid share: the stage reports on the first share it is handed (the report
+names it), returns (`finish`) and – since /repo 3a1c0bc – drains.  Output per instance: the tag of the
+share it reported with, or `-`; `blocked@<tag>` if the loop would wait for ever (never, with the drain:
+`Props.C13.repaired_never_blocks`). -/
+def runStage (drain : Bool) (es : List Ev) : String :=
+  let rec go (sb : StB) (rep : List (Nat × Nat)) : List Ev → Option Nat × List (Nat × Nat)
+    | [] => (none, rep)
+    | e :: rest =>
+      match stepB drain sb (.ev e) with
+      | .blocked _ s => (some s.tag, rep)
+      | .ok sb1 out =>
+        -- the first share handed to an instance that has not reported makes its stage report and return
+        let (sb2, rep2) := out.foldl (fun (acc : StB × List (Nat × Nat)) (p : Nat × Share) =>
+          if acc.2.any (fun q => q.1 == p.1) then acc
+          else (match stepB drain acc.1 (.finish p.1) with
+                | .ok sb' _ => sb'
+                | .blocked _ _ => acc.1, acc.2 ++ [(p.1, p.2.tag)])) (sb1, rep)
+        go sb2 rep2 rest
+  let (blk, rep) := go initB [] es
+  let hs := instancesOf es
+  let body := if hs.isEmpty then "none" else
+    String.intercalate ";" (hs.map (fun h =>
+      match rep.find? (fun q => q.1 == h) with
+      | some q => s!"h{h}={q.2}"
+      | none => s!"h{h}=-"))
+  match blk with
+  | some t => body ++ s!" blocked@{t}"
+  | none => body
+
 def stepLine (line : String) : String :=
   match words line with
+  | ["stage", rs, evs] =>
+    match (rs.splitOn ";").mapM ofHex with
+    | none => "bad-op"
+    | some rids =>
+      let toks := if evs == "-" then [] else evs.splitOn ","
+      match parseEvs rids 0 toks with
+      | none => "bad-op"
+      | some es => runStage true es
   | ["loop", rs, evs] =>
     match (rs.splitOn ";").mapM ofHex with
     | none => "bad-op"
